@@ -224,3 +224,4 @@ def run(ctx):
                    'unless the key was found in the current index, a plan that enters the new address of a moved value also removes the entry of the index the key was found in',
                    ok, '' if ok else 'entry kept in the older index: ' + lib.short_path(wb, w1 + w2), wb.loc(i))
     shared.lookup_sees_one_queue_state(ctx, '8')
+    shared.index_hit_verified_against_key(ctx, '9')
